@@ -105,10 +105,14 @@ def world_files(world):
             "c_part.yaml": "c:\n  d:\n    b: 4\nod:\n  a: 3\n",
             "c_bad.yaml": "c:\n  d:\n    a: five\n",
         }
+    if world == "dmp":
+        return {
+            "m_cfg.yaml": "seed: 4\nmodel:\n  init_args:\n    ckpt: c.pt\n",
+        }
     raise KeyError(world)
 
 
-WORLDS = ["sub", "cls", "link", "dcf", "sdf", "dcl"]
+WORLDS = ["sub", "cls", "link", "dcf", "sdf", "dcl", "dmp"]
 
 
 def build_world(world, J):
@@ -227,6 +231,29 @@ def build_world(world, J):
         Q.add_argument("--cfg", action=CF)
         Q.add_class_arguments(lib.DcUser, "c")
         Q.add_argument("--od", type=Optional[lib.Nest], default=None)
+        return {"P": P, "Q": Q}
+    if world == "dmp":
+        # None-valued defaults at every level (top-level Optional option, Optional class-typed option, init argument
+        # of the default class of a subclass argument, parameter of a class group) + a link whose target has a None
+        # default: the parser on which the FLAG VARIANTS of dump / --print_config are enumerated.  Q has the same
+        # class-typed argument (state shared through the class would show on it) and no link.
+        import importlib
+
+        lib = importlib.import_module(LIB)
+        P = AP(exit_on_error=False, prog="app", env_prefix="APP")
+        P.add_argument("--cfg", action=CF)
+        P.add_argument("--seed", type=Optional[int], default=None)
+        P.add_argument("--name", type=str, default="x")
+        P.add_argument("--total", type=Optional[int], default=None)
+        P.add_subclass_arguments(lib.Net, "model", default={"class_path": f"{LIB}.Net"})
+        P.add_argument("--aux", type=Optional[lib.Net], default=None)
+        P.add_class_arguments(lib.Trn, "t")
+        P.link_arguments("t.steps", "total", compute_fn=lib.times_ten)
+        Q = AP(prog="tool", env_prefix="TOOL")
+        Q.add_argument("--cfg", action=CF)
+        Q.add_argument("--seed", type=Optional[int], default=None)
+        Q.add_argument("--name", type=str, default="x")
+        Q.add_subclass_arguments(lib.Net, "model", default={"class_path": f"{LIB}.Net"})
         return {"P": P, "Q": Q}
     raise KeyError(world)
 
@@ -354,7 +381,10 @@ def alphabet(world, which):
             _op("P", "parse_env", {"APP_MODEL": f"{LIB}.Other"}),
             _op("P", "validate", cfg_ok),
             _op("P", "validate", cfg_bad, "error:not-a-subclass"),
-            _op("P", "dump", cfg_ok, "ok:skip_default", {"skip_default": True}),
+            _op("P", "dump", cfg_ok, "ok:skip_default", {"skip_default": True}, shape="P.dump[flags]"),
+            # a flag variant that shares the defaults computation with the dump above but keeps None values (the full
+            # flag product is enumerated in world dmp; here on a parser with Optional / Callable class types)
+            _op("P", "parse_args", ["--print_config=skip_default", "--n=2"], "print_config=skip_default", shape="P.parse_args[print_config=flags]"),
             _op("P", "dump", cfg_bad, "error:not-a-subclass"),
             _op("P", "instantiate", cfg_neg, "error:init-raises"),
             _op("Q", "parse_args", [f"--holder={LIB}.Holder", f"--holder.inner={LIB}.Sub"], "ok:nested-class"),
@@ -520,6 +550,7 @@ def alphabet(world, which):
             dc("P", "parse_object", {"c": {"d": {"a": 6}}}, "ok:partial"),
             dc("P", "parse_object", {"c": {"d": {"b": 4}}}, "ok:no-defaults", {"defaults": False}),
             dc("P", "dump", cfg_ok, "ok:skip_default", {"skip_default": True}),
+            _op("P", "parse_args", ["--print_config=skip_default", "--od.b=6"], "print_config=skip_default"),
             dc("P", "validate", cfg_ok, "ok"),
             dc("P", "validate", cfg_bad, "error:type"),
             dc("P", "instantiate", cfg_part, "ok:partial"),
@@ -533,6 +564,96 @@ def alphabet(world, which):
             _op("P", "parse_args", ["--od=null", "--c.n=null"], "ok:dataclass-param-null+dataclass-option-null"),
             dc("P", "parse_env", {"APP_C__D": '{"a": 2}', "APP_OD": '{"b": 4}'}, "ok:partial"),
             dc("Q", "instantiate", {"c": {"d": {"a": 5}, "e": {"a": 3, "b": 4}, "n": None}, "od": {"k": 1, "inner": {"a": 2, "b": 3}}}, "ok:partial"),
+        ]
+    elif world == "dmp":
+        # The flag variants of dump and of --print_config.  dump(cfg, skip_default, skip_none, skip_validation, format)
+        # is enumerated as the full PRODUCT of its four flags (16 variants) on one config (cfg_a: None values equal to
+        # their defaults + one changed value); the pairs skip_default x skip_none again on a second config (cfg_b:
+        # another class, non-None values) and skip_default x skip_validation on an invalid one; --print_config with
+        # every subset of its flags {skip_default, skip_null} (+ comments); yaml_comments / skip_link_targets variants
+        # in `extra`.  Every ordered pair of these is explored by the quick tier, so "variant A leaves something that
+        # variant B reads" is covered for every A, B.  All flag variants of one entry point are one class of call:
+        # shape `<parser>.dump[flags]` / `<parser>.parse_args[print_config=flags]` in signatures (the label says which).
+        net = {"class_path": f"{LIB}.Net", "init_args": {"width": 8, "ckpt": None}}
+        wide = {"class_path": f"{LIB}.WideNet", "init_args": {"depth": 2, "tag": None, "width": 8, "ckpt": "c.pt"}}
+        cfg_a = {"seed": None, "name": "y", "total": 30, "model": net, "aux": None, "t": {"steps": 3, "resume": None}}
+        cfg_b = {"seed": 4, "name": "x", "total": 50, "model": wide, "aux": net, "t": {"steps": 5, "resume": "r"}}
+        cfg_bad = {"seed": "bad", "name": "y", "total": 30, "model": net, "aux": None, "t": {"steps": 3, "resume": None}}
+        cfg_q = {"seed": None, "name": "y", "model": net}
+
+        def dump(on, cfg, what, sd=False, sn=True, sv=False, fmt=None, **other):
+            kw, names = dict(other), sorted(f"{k}={v}" for k, v in other.items())
+            if sd:
+                kw["skip_default"] = True
+                names.append("skip_default")
+            if not sn:
+                kw["skip_none"] = False
+                names.append("skip_none=False")
+            if sv:
+                kw["skip_validation"] = True
+                names.append("skip_validation")
+            if fmt:
+                kw["format"] = fmt
+                names.append(fmt)
+            return _op(on, "dump", cfg, what + ":" + ("+".join(names) or "no-flags"), kw, shape=f"{on}.dump[flags]")
+
+        def pc(on, flags, rest, what="print_config"):
+            arg = "--print_config" + ("=" + ",".join(flags) if flags else "")
+            return _op(on, "parse_args", [arg] + rest, f"{what}={','.join(flags) or 'no-flags'}", shape=f"{on}.parse_args[print_config=flags]")
+
+        core += [
+            _op("P", "parse_args", ["--name=y"]),
+            dump("P", cfg_a, "ok"),
+            dump("P", cfg_a, "ok", sd=True),
+            dump("P", cfg_a, "ok", sd=True, sn=False),
+            pc("P", ["skip_default"], ["--name=y"]),
+            pc("P", ["skip_default"], ["--seed=bad"], "print_config+error"),
+            _op("P", "get_defaults"),
+            dump("Q", cfg_q, "ok", sd=True),
+        ]
+        in_core = {json.dumps(o, sort_keys=True) for o in core}
+        product = [
+            dump("P", cfg_a, "ok", sd, sn, sv, fmt)
+            for sd in (False, True)
+            for sn in (True, False)
+            for sv in (False, True)
+            for fmt in (None, "json")
+        ]
+        more += [o for o in product if json.dumps(o, sort_keys=True) not in in_core]
+        more += [
+            dump("P", cfg_b, "ok:other-class"),
+            dump("P", cfg_b, "ok:other-class", sd=True),
+            dump("P", cfg_b, "ok:other-class", sd=True, sn=False),
+            dump("P", cfg_bad, "error:type"),
+            dump("P", cfg_bad, "ok:invalid-config", sv=True),
+            dump("P", cfg_bad, "ok:invalid-config", sd=True, sv=True),
+            pc("P", [], ["--seed=4"]),
+            pc("P", ["skip_null"], ["--name=y"]),
+            pc("P", ["skip_default", "skip_null"], ["--name=y"]),
+            pc("P", ["comments"], ["--name=y"]),
+            pc("P", ["skip_default"], ["--cfg=m_cfg.yaml", f"--model={LIB}.WideNet"], "print_config:config-file+class-change"),
+            _op("P", "parse_args", [f"--aux={LIB}.WideNet", "--aux.tag=t", "--t.resume=r"], "ok:optional-class"),
+            _op("P", "validate", cfg_a),
+            dump("Q", cfg_q, "ok", sd=True, sn=False),
+            pc("Q", ["skip_default"], ["--name=y"]),
+        ]
+        extra += [
+            dump("P", cfg_b, "ok:other-class", sn=False),
+            dump("P", cfg_b, "ok:other-class", sd=True, sv=True, fmt="json"),
+            pc("Q", ["skip_default", "skip_null"], ["--name=y"]),
+            dump("P", cfg_bad, "error:type", sd=True),
+            _op("P", "parse_args", []),
+            dump("P", cfg_a, "ok", yaml_comments=True),
+            dump("P", cfg_a, "ok", sd=True, yaml_comments=True),
+            dump("P", cfg_a, "ok", sn=False, yaml_comments=True),
+            dump("P", cfg_a, "ok", skip_link_targets=False),
+            dump("P", cfg_a, "ok", sd=True, skip_link_targets=False),
+            dump("P", cfg_a, "ok", sd=True, sn=False, skip_link_targets=False),
+            pc("P", ["comments", "skip_default"], ["--name=y"]),
+            pc("P", ["comments", "skip_null"], ["--name=y"]),
+            pc("P", ["comments", "skip_default", "skip_null"], ["--name=y"]),
+            _op("P", "parse_string", "seed: null\nmodel:\n  init_args:\n    ckpt: null\n", "ok:explicit-null"),
+            _op("P", "instantiate", cfg_b),
         ]
     else:
         raise KeyError(world)
@@ -1125,7 +1246,7 @@ def explore(ctx):
     if ctx.quick:
         # (alphabet, max history length, state cap, cross-check budget, cross-check ALL merged histories up to length)
         # quick: every ordered pair of operations of the full alphabet; every triple of the core alphabet
-        plan = [("full", 2, 10**6, 4, 0), ("core", 3, 10**6, 4, 0)]
+        plan = [("full", 2, 10**6, 2, 0), ("core", 3, 10**6, 2, 0)]
     else:
         # thorough: every triple of the complete alphabet; the core alphabet to closure or to the state cap, with
         # every merged history of length <= 2 re-run without dedup (so every core sequence of length <= 3 is executed
